@@ -95,7 +95,9 @@ def _parse_einsum_input(operands, asarray):
     # Parse ellipses
     if "." in subscripts:
         used = subscripts.replace(".", "").replace(",", "").replace("->", "")
-        unused = list(einsum_symbols_set - set(used))
+        # sorted: iteration order of a set of str depends on PYTHONHASHSEED, and these
+        # symbols end up in the blockwise indices, i.e. in the collection name.
+        unused = sorted(einsum_symbols_set - set(used))
         ellipse_inds = "".join(unused)
         longest = 0
 
